@@ -37,4 +37,36 @@ func rulePlainRefreshNotCancellable(c *eng.Ctx) {
 		c.Check(ok, rule, c.P.FnName(s.Fn)+"→refresh:context", s.Call.Pos(), "the plain refresh runs with a context nobody can cancel (%s)", c.P.Describe(eng.Arg(s.Call, 0)))
 	}
 	c.Check(n >= 1, rule, "refresh:call-sites", 0, "%d call sites of lockHandle.refresh", n)
+	// the same for every upload of a replacement lock: inside refresh the context is refresh's own
+	// parameter (covered above); elsewhere — refreshStaleLock, which does run under the locker's
+	// context — it is the delayed-cancel context, so that an Unlock in the middle of the upload
+	// still lets the replacement be adopted or cleaned up (genuine defect, fixed)
+	m := 0
+	for _, s := range c.P.AllCallsTo(pkgRepo + ".(*lockHandle).createReplacementLock") {
+		if strings.Contains(c.P.Pos(s.Fn.Pos()), "testing.go:") {
+			continue
+		}
+		m++
+		c.Touch(s.Fn)
+		arg := eng.Arg(s.Call, 0)
+		if c.P.FnName(s.Fn) == pkgRepo+".(*lockHandle).refresh" && eng.IsParam(s.Fn, "ctx")(arg) {
+			c.Ok(rule, c.P.FnName(s.Fn)+"→createReplacementLock:context", s.Call.Pos(), "refresh's own context (see its call sites)")
+			continue
+		}
+		ok := true
+		for _, o := range eng.Origins(arg, nil) {
+			call := eng.RootCall(o)
+			if call == nil {
+				ok = false
+				break
+			}
+			switch c.P.CalleeName(call) {
+			case "context.TODO", "context.Background", pkgRepo + ".delayedCancelContext":
+			default:
+				ok = false
+			}
+		}
+		c.Check(ok, rule, c.P.FnName(s.Fn)+"→createReplacementLock:context", s.Call.Pos(), "the replacement lock is uploaded with a context whose cancellation is delayed (%s)", c.P.Describe(arg))
+	}
+	c.Check(m >= 2, rule, "createReplacementLock:call-sites", 0, "%d call sites of createReplacementLock", m)
 }
